@@ -64,9 +64,9 @@ fn step_strategy() -> impl Strategy<Value = Step> {
 
 pub fn case_strategy(equal_sizes: bool) -> impl Strategy<Value = Case> {
     let sizes = if equal_sizes {
-        (3u8..=10, 1usize..=5).prop_map(|(lg, n)| vec![lg; n]).boxed()
+        (prop_oneof![1 => 0u8..=2, 12 => 3u8..=10], 1usize..=5).prop_map(|(lg, n)| vec![lg; n]).boxed()
     } else {
-        proptest::collection::vec(3u8..=11, 1..=5).boxed()
+        proptest::collection::vec(prop_oneof![1 => 0u8..=2, 12 => 3u8..=11], 1..=5).boxed()
     };
     (0u8..3, sizes, 1u8..=16, proptest::collection::vec(step_strategy(), 1..40))
         .prop_map(|(kind, lg_sizes, domain_q, steps)| Case { kind, lg_sizes, domain_q, steps })
@@ -235,7 +235,8 @@ fn run_typed<T: FrequentItemValue + Hash + Eq + Clone + std::fmt::Debug>(
     info: &mut CaseInfo,
     conv: &dyn Fn(u64) -> T,
 ) -> Result<(), Fail> {
-    let max_lg = *c.lg_sizes.iter().max().unwrap();
+    // map sizes below 8 are raised to 8 (documented minimum)
+    let max_lg = (*c.lg_sizes.iter().max().unwrap()).max(3);
     let domain = (((1u64 << max_lg) * c.domain_q as u64) / 4).max(2);
     let mut sides: Vec<Side<T>> = c
         .lg_sizes
@@ -244,7 +245,7 @@ fn run_typed<T: FrequentItemValue + Hash + Eq + Clone + std::fmt::Debug>(
             sk: FrequentItemsSketch::new(1usize << lg),
             truth: HashMap::new(),
             total: 0,
-            sizes: [lg].into_iter().collect(),
+            sizes: [lg.max(3)].into_iter().collect(),
             merged: false,
         })
         .collect();
